@@ -519,6 +519,48 @@ pub fn run(rep: &'static Report) {
             }
         }
     });
+    // the plaintext source fails in the middle (stdin is a socket whose peer dies after 1000 / 70000 bytes, inside a chunk):
+    // the encryption must end with exit 1, and whatever is at the output path must not be a complete file that decrypts
+    // cleanly to a PART of the input (an error swallowed and turned into "end of input")
+    {
+        let mut rj = vec![];
+        for mode in ["key", "pass"] {
+            for cut in [1000usize, 70_000] {
+                rj.push((mode, cut));
+            }
+        }
+        rj.par_iter().for_each(|&(mode, cut)| {
+            rep.eval(1);
+            rep.nontrivial(format!("encrypt-source-fails-{}-{}", mode, cut).as_bytes());
+            let data = plaintext(rep.seed ^ 0xd9, cut);
+            let attempt = || -> Result<(), String> {
+                let sc = Scratch::new();
+                for (n, d) in &fx.files {
+                    sc.write(n, d);
+                }
+                let args: Vec<&str> = if mode == "key" { vec!["encrypt", "-t", "bob", "-f", "alice", "-k", "kr.txt", "-o", "out.bin", "--env-pass"] } else { vec!["password", "encrypt", "-o", "out.bin", "--env-pass"] };
+                let mut c = Cmd::new(&args).env("KESTREL_PASSWORD", if mode == "key" { "alicepw" } else { "filepw" }).stdin(&data);
+                c.stdin_socket_reset = Some(true);
+                let o = proc::run(&c, &sc.0);
+                o.well_behaved()?;
+                let f = sc.read("out.bin");
+                let complete = match (&f, mode) {
+                    (Some(f), "key") => r::read_key_file(&bob.sk, f).map(|k| k.parsed.plaintext.len()).ok(),
+                    (Some(f), _) if f.len() >= 36 => r::read_pass_file_with_key(&r::pass_key(b"filepw", f[4..36].try_into().unwrap()), f).map(|k| k.plaintext.len()).ok(),
+                    _ => None,
+                };
+                if o.ok() || complete.is_some() {
+                    return Err(format!("exit status {:?}; the output path holds {}", o.code, match complete { Some(n) => format!("a complete file that decrypts cleanly to {} bytes although the source failed after {}", n, cut), None => "no complete file".to_string() }));
+                }
+                Ok(())
+            };
+            if attempt().is_err() {
+                if let Err(e) = attempt() {
+                    rep.violation(&format!("{}-encrypt/source-fails-inside-a-chunk", mode), json!({"kind":"sweep","source_fails":cut,"mode":mode}), format!("kestrel {} encrypt from a stdin socket whose peer dies after {} bytes: {}", mode, cut, e));
+                }
+            }
+        });
+    }
     damage_sweep(rep, &alice, &bob);
     rep.extra("interactive_later_chunk_cases", json!(tty_jobs.len()));
     rep.extra("cases", json!(cs.len()));
